@@ -146,6 +146,17 @@ class ConvexMonitor(solvex.Monitor):
             ex.tags.add("restarted")
 
 
+FEATURES = [
+    ("soft_inc", cfgs.RESTART_MODES["soft_inc"], 2e-2),
+    ("soft_inc_amt2", dict(cfgs.RESTART_MODES["soft"], **{"restarts.increase_npt": True, "restarts.increase_npt_amt": 2,
+                                                          "restarts.max_npt_plus": 3}), 2e-2),
+    ("extra_geom", {"regression.num_extra_steps": 1}, 1e-3),
+    ("extra_momentum", {"regression.num_extra_steps": 1, "regression.momentum_extra_steps": True}, 1e-3),
+    ("random_init", {"init.random_initial_directions": True}, 1e-3),
+    ("random_init_batch", {"init.random_initial_directions": True, "init.run_in_parallel": True}, 1e-3),
+]
+
+
 def _hair(bp, far, eps):
     return bp + eps * (far - bp) / max(np.linalg.norm(far - bp), 1e-300)
 
@@ -156,6 +167,13 @@ def _on_boundary(s, x):
     if s.t == "half":
         return abs(s.a.dot(x) - s.b) < 1e-9
     return False
+
+
+SITE_EXEMPT = {
+    "initialise_coordinate_directions#2": "the branch taken without projections",
+    "add_new_direction_while_growing#0": "a growing point set cannot be combined with projections (known finding C07: RuntimeError)",
+    "geometry_step#0/check_and_fix_geometry@0": "a growing point set cannot be combined with projections (known finding C07)",
+}
 
 
 def monitors(cfg):
@@ -237,6 +255,27 @@ def _configs(tier, salts):
                             if bnd:
                                 cfg["lo"], cfg["hi"] = (lo + off).tolist(), (hi + off).tolist()
                             out.append((cfg, {"depth": 0}))
+        # every evaluation site that exists with projections: options that select the other sites (points added when a soft
+        # restart increases npt, extra regression steps of both kinds, random initial directions, batch initialisation)
+        if salt == 0 or tier == "thorough":
+            n = 2
+            specs = set_bank(n, salt)
+            for sub in [c for L in (2, 3) for c in itertools.combinations(range(len(specs)), L)][::3]:
+                sets0 = [bank.CSet(specs[i]) for i in sub]
+                for bnd in (False, 2):
+                    lo = np.array(BOUNDS2["lo"][:n]) if bnd else None
+                    hi = np.array(BOUNDS2["hi"][:n]) if bnd else None
+                    far_a = np.array([3.0, 2.5])
+                    for sname, x0 in (("interior", np.array(INTERIOR[:n])), ("boundary_a", _proj_ref(sets0, far_a, lo, hi))):
+                        for fname, up, rhoend in FEATURES:
+                            cfg = {"prob": {"f": "lin", "A": np.eye(n).tolist(), "b": [2.0] * n, "salt": salt},
+                                   "x0": x0.tolist(), "sets": [specs[i] for i in sub],
+                                   "rhobeg": 0.2, "rhoend": rhoend, "maxfun": 45, "memo": True, "record_dykstra": True,
+                                   "tag_start": "feature/" + sname, "tag_restart": fname,
+                                   "user_params": cfgs.user_params(n + 1, up)}
+                            if bnd:
+                                cfg["lo"], cfg["hi"] = lo.tolist(), hi.tolist()
+                            out.append((cfg, {"depth": 0}))
         # projection modes of the broad option bank (user Dykstra parameters, restarts, regulariser + projections)
         if salt == 0 or tier == "thorough":
             for name, cfg in cfgs.broad_cfgs(salt=salt, require=("sets",), budgets=(12, 35), reg_budgets=(8,)):
@@ -255,6 +294,7 @@ def run(report, tier, seed):
     missing = [t for t in need if not tags.get(t)]
     if missing:
         raise common.HarnessError("C09 exploration is vacuous: %s never occurred" % missing)
+    solvex.site_floor(report, tags, exempt=SITE_EXEMPT)
     cov["rule"] = ("one execution per (subset of the set bank, bounds on/off, starting point, restart mode, function); every "
                    "evaluated point is matched by its bytes against the outputs of the wrapped projection routine; "
                    "non-trivial = executions with an evaluation on the boundary of a set")
